@@ -541,7 +541,7 @@ def opRoundtrip (st : DState) (a b : Nat) : DState × String :=
   match o with
   | .gone => (st, "bad-op")
   | .threaded t =>
-    let doc := t.map.filterMap fun (ref, k) => (t.content st.env ref).map fun x => (x, k + 1)
+    let doc := t.serDoc st.env
     if doc.length ≠ t.map.length then (st, "fault") else
     match deThreaded st.N doc with
     | .ok t' => (setSlot st b (.threaded t'), "ok")
